@@ -23,7 +23,7 @@ type Q struct {
 }
 
 func quoteIfNeeded(s string) string {
-	if strings.ContainsFunc(s, unicode.IsSpace) || strings.Contains(s, ":") {
+	if s == "" || strings.ContainsFunc(s, unicode.IsSpace) || strings.Contains(s, ":") {
 		return `"` + s + `"`
 	}
 	return s
